@@ -10,3 +10,8 @@ def run(chk):
                 "save/load interleaved); non-trivial = at least 2 tracklist_changed events and at "
                 "least one rejected call; distinct by op sequence")
     core_check.run_core(chk, "C01", [("tracklist", 6), ("schedule", 2), ("restore", 1)], ["Property_C01.v"])
+    if not chk.replay:
+        # a snapshot restored into a LIVE tracklist (the model's Load starts a new process)
+        import core_live_restore
+
+        core_live_restore.run_stage(chk, "C01")
